@@ -2778,7 +2778,8 @@ class TrackFragmentRunBox(FullBox):
         w = FieldWriter(self, dest)
         w.write('I', 'sample_count')
         if self.flags & self.data_offset_present:
-            w.write('I', 'data_offset')
+            # data_offset is a signed value
+            w.write('i', 'data_offset')
         if self.flags & self.first_sample_flags_present:
             w.write('I', 'first_sample_flags')
 
